@@ -176,9 +176,9 @@ func init() {
 
 func init() {
 	Properties["C17"] = PropSpec{
-		Rules:       []Rule{KConsistent, ResultAlgebra},
-		Explanation: "(being extended) K-CONSISTENT: at each member-validation site of the object and slice validators the path suffix, the member selector and the merge key are the same SSA value, the child's constructor path contains it, and the missing-required error is named <path>.<k>; MEMBER-GUARD; RESULT-ALGEBRA: IsValid == len(Errors)==0, dedupe.",
-		NotDecided:  "Best-branch selection text for anyOf/oneOf; that every sub-validator uses its own Path in every message.",
+		Rules:       []Rule{KConsistent, OneShot, ResultAlgebra},
+		Explanation: "K-CONSISTENT — at each of the 7 member-validation sites of the object and slice validators the value that extends the parent's path, the value that selects the member's data and the key under which the child's result is merged are the same SSA value, the parent path is the receiver's Path, and the child validator is constructed with that path (SetPath after construction only re-paths the outer validator; the single-schema `items` site, whose location accuracy C17 does not claim, is the one reviewed exception); the error for a missing required member is named <path>.<k> for the k that was not found; MEMBER-GUARD; ONESHOT-EQ — AgainstSchema returns nil exactly on !res.HasErrors() and otherwise CompositeValidationError(res.Errors...) of the same result; RESULT-ALGEBRA — validity is len(Errors)==0 (an invalid verdict carries at least one error), messages are de-duplicated by text, append-only; RES-ALIAS — the composite copies the errors.",
+		NotDecided:  "Best-branch selection text for anyOf/oneOf; that every sub-validator uses its own Path in every message; message wording.",
 		Assumptions: []string{trustDeps},
 	}
 }
@@ -187,14 +187,14 @@ func init() {
 	Properties["C16"] = PropSpec{
 		Rules: []Rule{Chain, EnumConvert, Keywords("ParamValidator", simpleKeywords, "param_ctor_calls"), Keywords("HeaderValidator", simpleKeywords, "header_ctor_calls"), Keywords("itemsValidator", simpleKeywords, "items_ctor_calls"), KeywordGuard,
 			Narrow},
-		Explanation: "(being extended) CHAIN, KEYWORDS(simple), APPLIES-SOURCE, KEYWORD-GUARD, NARROW.",
-		NotDecided:  "Per-keyword predicates; the type inference table of schemaInfoForType.",
+		Explanation: "Structural necessary conditions of the simple-schema semantics: CHAIN — Param/Header/items validators hold the same ordered groups (type, string, format, number, slice, enum), run a group only on the true edge of its own Applies, merge every non-nil group result, return at once for a nil value, and basicSliceValidator validates element i with a fresh items validator built from its Items; KEYWORDS — each of the 15 simple-schema constraints of the parameter/header/items definition reaches a sub-validator field that is read while validating; APPLIES-SOURCE — every definition type that can arrive as the source of Applies at a dispatcher is handled by the Applies of every group it holds (a missing case silently disables the group, e.g. for items of items), and Applies decides on the validator's own keyword, consulting the source's only as a fallback when its own is empty; KEYWORD-GUARD; ENUM-CONVERT; NARROW (shared numeric path, see C13); panic-freedom for typed Go values via C06/C07's D-DYN.",
+		NotDecided:  "Per-keyword predicates; the type-inference table of schemaInfoForType; the meaning of formats.",
 		Assumptions: []string{trustDeps},
 	}
 	Properties["C01"] = PropSpec{
-		Rules:       []Rule{Keywords("SchemaValidator", schemaKeywords, "schema_ctor_calls"), NilPath, KeywordGuard, EnumConvert, KConsistent, PoolCtor, MapOrder("(*SchemaValidator).Validate", "AgainstSchema")},
-		Explanation: "(being extended) KEYWORDS, NILPATH, KEYWORD-GUARD, K-CONSISTENT, POOL-CTOR.",
-		NotDecided:  "Whether each keyword's predicate agrees with draft 4.",
+		Rules:       []Rule{Keywords("SchemaValidator", schemaKeywords, "schema_ctor_calls"), NilPath, KeywordGuard, EnumConvert, KConsistent, OneShot, PoolCtor, MapOrder("(*SchemaValidator).Validate", "AgainstSchema")},
+		Explanation: "Structural necessary conditions of draft-4 agreement, decided on every path: KEYWORDS — each of the 27 supported keywords of the schema is handed by newSchemaValidator to a sub-validator constructor, kept (itself or something built from it) in a field, and that field is read by the sub-validator's Validate/Applies (a keyword that is dropped or stored-but-never-read is a skipped constraint); NILPATH — keyword groups whose Applies does not depend on the kind must also run for a nil instance (one genuine violation is a known finding); KEYWORD-GUARD — a constraint helper called from a Validate method is guarded only by the presence of its keyword, the type assertion and earlier outcomes, never by the instance value; ENUM-CONVERT — enum membership compares the instance converted to the member's type with that member; K-CONSISTENT/MEMBER-GUARD — every member (property, pattern/additional property, list/tuple/additional item) is validated against its schema under its own key and not filtered by its value or name; MAP-ORDER — no order-dependent early exit from map ranges in the schema validators; D-BOUND on the element loops (via C06); ONESHOT-EQ — AgainstSchema is NewSchemaValidator(...).Validate plus HasErrors; POOL-CTOR — no constraint field of a recycled validator is left from a previous schema.",
+		NotDecided:  "Whether each keyword's predicate agrees with draft 4 (oneOf counting, integer-vs-number, enum equality across numeric types, regexp search semantics, format registries…): value-level, out of reach of static analysis; the checks decide that no keyword group is skipped, mis-keyed or conditioned on the wrong thing.",
 		Assumptions: []string{trustDeps},
 	}
 }
@@ -210,6 +210,15 @@ func init() {
 		Rules:       []Rule{Schemata, KConsistent, ResultAlgebra, ResLinear},
 		Explanation: "SCHEMATA/POST as for C18, and for pruning: pruneObject's single write is delete(obj, field) with field ranging over obj, decided by FieldSchemata()[NewFieldKey(obj, field)] of the same object and member; prune recurses into every map value and slice element. K-CONSISTENT: the result of validating a member (declared, pattern or additional property, tuple / additional / list item) is filed under (container, that member's own key or index), so a described member has schemata and an undescribed one has none.",
 		NotDecided:  "As C18; idempotence of pruning.",
+		Assumptions: []string{trustDeps},
+	}
+}
+
+func init() {
+	Properties["C09"] = PropSpec{
+		Rules:       []Rule{Traverse, RuleSeq},
+		Explanation: "TRAVERSE: (a) the recursive descent of both walkers calls itself on schema.Items.Schema, each of Items.Schemas, each of Properties, AdditionalProperties.Schema and each of AllOf, with a path that extends the current one and contains the loop key/index (so members get distinct visited-set keys), merged with Merge; the schema's own default/example is validated by a validator built from that schema; (b) the default and the example walker are compared step by step (callee, argument provenance, guard conditions, path shape): every traversal step of the default walker exists in the example walker under the same guards; (c) a leaf verdict on a default enters as Merge (error), on an example as MergeAsWarnings, and both walkers are merged with Merge in Validate (RULE-SEQ); (d) the skip predicate isVisited may answer true only on the found edge of the lookup of that path.",
+		NotDecided:  "That each leaf validation is right (C01/C16); the behaviour of the recursion cut-off on circular specifications.",
 		Assumptions: []string{trustDeps},
 	}
 }
